@@ -141,7 +141,8 @@ fn pairs_of(op: &Value, cx: &mut Ctx, ev: &mut Map<String, Value>) -> Vec<(Item,
         let mut st = g["seed"].as_u64().unwrap_or(1) | 1;
         for i in 0..cnt {
             let r = gen_rank(pat, i, cnt, &mut st);
-            v.push((Item::new(&format!("k{}", i), 0), Pri::new_raw(r * 1000 + (i as i64 % 1000), 0)));
+            let pre = g["prefix"].as_str().unwrap_or("k");
+            v.push((Item::new(&format!("{}{}", pre, i), 0), Pri::new_raw(r * 1000 + (i as i64 % 1000), 0)));
         }
         ev.insert("m".into(), json!(cnt));
         ev.insert("pairs".into(), json!([]));
@@ -370,6 +371,22 @@ fn run<T: QApi>(q: &mut T, op: &Value, cx: &mut Ctx, ev: &mut Map<String, Value>
             let keep: Vec<String> = op.get("keep").and_then(|v| v.as_array()).map(|a| a.iter().map(|x| x.as_str().unwrap_or("").to_string()).collect()).unwrap_or_default();
             let set = op.get("set").and_then(|v| v.as_object()).cloned().unwrap_or_default();
             let wp = b(op, "wp");
+            let keepmod = n(op, "keepmod");
+            if keepmod > 0 {
+                // cost engine: keep every element whose numeric suffix is not a multiple of keepmod; calls not logged
+                CMPS.with(|c| c.set(0));
+                let mut pred = |i: &Item| -> bool {
+                    let d: String = i.key.chars().filter(|c| c.is_ascii_digit()).collect();
+                    d.parse::<i64>().map(|x| x % keepmod != 0).unwrap_or(true)
+                };
+                if name == "retain_mut" {
+                    q.retain_mut(&mut |i, _p| pred(i));
+                } else {
+                    q.retain(&mut |i, _p| pred(i));
+                }
+                ev.insert("calls".into(), json!([]));
+                return;
+            }
             cx.scratch.clear();
             let mutable = name == "retain_mut";
             let mut ctr = *cx.ctr;
@@ -478,7 +495,8 @@ fn run<T: QApi>(q: &mut T, op: &Value, cx: &mut Ctx, ev: &mut Map<String, Value>
                 let r = gen_rank(&pat, i, cnt, &mut st);
                 // distinct ranks inside a pattern step keep asc/desc strictly monotone
                 let fine = match pat.as_str() { "asc" => i as i64, "desc" => -(i as i64), "const" => 0, _ => r * 1000 + (i as i64 % 1000) };
-                q.push(Item::new(&format!("k{}", i), 0), Pri::new_raw(fine, 0));
+                let pre = if s(op, "prefix").is_empty() { "k" } else { s(op, "prefix") };
+                q.push(Item::new(&format!("{}{}", pre, i), 0), Pri::new_raw(fine, 0));
             }
             CMPS.with(|c| c.set(0));
         }
